@@ -231,8 +231,22 @@ def run(P, rep, tier):
     for li, par, cond, line in levels:
         lvl = strip(strip(cond)[3])[1]
         inside = [ev for ev in rps.events(('st', 'call', 'ret')) if li in anc(ev.get('ctl', -1))]
-        keyifs = [i for i, (p2, k2, c2, l2) in enumerate(rps.ctl) if k2 == 'if' and p2 == li and c2 is not None and last_field(strip(strip(c2)[2]) if strip(c2)[0] == 'b' else None) == FTYPE
-                  and strip(c2)[1] == '==' and strip(strip(c2)[3])[0] == 'l' and strip(strip(c2)[3])[1] == 0]
+        def through_alias(c2):
+            """a condition that is just a local with one definition stands for that definition (`const EbBool is_key = ...; if (is_key)`)"""
+            c2 = strip(c2)
+            if c2 and c2[0] == 'v' and c2[2] == 'l':
+                defs = [d for d in rps.events(('decl', 'st')) if (d['k'] == 'decl' and d['n'] == c2[1] and d.get('e') is not None) or
+                        (d['k'] == 'st' and d['e'][0] == 'a' and d['e'][1] == '=' and strip(d['e'][2]) == c2)]
+                if len(defs) == 1:
+                    return strip(defs[0]['e'] if defs[0]['k'] == 'decl' else defs[0]['e'][3])
+            return c2
+        keyifs = []
+        for i, (p2, k2, c2, l2) in enumerate(rps.ctl):
+            if k2 != 'if' or p2 != li or c2 is None:
+                continue
+            c3 = through_alias(c2)
+            if c3 and c3[0] == 'b' and c3[1] == '==' and last_field(strip(c3[2])) == FTYPE and strip(c3[3])[0] == 'l' and strip(c3[3])[1] == 0:
+                keyifs.append(i)
         probs = []
         if not keyifs:
             probs.append('no test of frame_type == KEY_FRAME at the top of the branch')
